@@ -156,6 +156,16 @@ def main():
         'assumptions': meta.get('assumptions', []),
         'wall_s': round(time.time() - t0, 2), 'violations': len(violations),
     }
+    try:        # fingerprints of the anchored source files this run was tied to (informational: the tie is re-established on every run)
+        import hashlib
+        for l in open(os.path.join(core.VERIF, 'properties.jsonl')):
+            pr = json.loads(l)
+            if pr['id'] == prop:
+                ev['coverage']['anchored_sources'] = {
+                    f: (hashlib.sha256(open(os.path.join(core.REPO, f), 'rb').read()).hexdigest()[:16] if os.path.exists(os.path.join(core.REPO, f)) else None)
+                    for f in pr['anchors']['files']}
+    except Exception:
+        pass
     if 'leanchecker' in gate:
         ev['coverage']['leanchecker'] = gate['leanchecker']
     if not args.replay and not os.environ.get('VERIF_NO_EVIDENCE'):
